@@ -277,63 +277,78 @@ def run(prop: str, tier: str) -> int:
     tmp = C.tmpdir()
     try:
         mc = replay_spec_runs(V, tier)
-        cases = build_cases(tier)
+        all_cases = build_cases(tier)
         n = C.ncpu()
-        chunks = [cases[i::n] for i in range(n)]
-        with ProcessPoolExecutor(max_workers=n) as pool:
-            done = list(pool.map(_run_chunk, chunks))
-        traces = [t for ch in done for t in ch]
-        traces.sort(key=lambda t: t["id"])
-        res = C.run_tlc_sharded("MachineTrace", traces, tmp, shards=n)
-        by_id = {t["id"]: t for t in traces}
+        # in batches: the logged traces of the thorough tier do not fit in memory at once
+        BATCH = 10000
         ok, unspec, nontriv = 0, 0, set()
-        for sid in res.ok_ids:
-            ok += 1
-            t = by_id[sid]
-            if sum(1 for s in t["steps"] if s["kind"] == "exec") >= 3:
-                nontriv.add(json.dumps(t["progs"], sort_keys=True))
-        for v in res.verdicts:
-            clause, sid, k = v[1], v[2], v[3]
-            t = by_id[sid]
-            if clause == "unspecified":
-                unspec += 1
-                continue
-            st = t["steps"][k - 1]
-            prog = t["progs"][st["sub"] - 1]
-            # the instruction that was being executed: pc of the previous step
-            prev_pc = t["steps"][k - 2]["post"]["pc"] if k >= 2 and t["steps"][k - 2]["sub"] == st["sub"] and t["steps"][k - 2]["kind"] != "start" else 0
-            if t["steps"][k - 2]["kind"] == "start" if k >= 2 else True:
-                prev_pc = 0
-            instr = prog[prev_pc]["mn"] if 0 <= prev_pc < len(prog) else "(end)"
-            V.add("step-leaves-specification", {"component": clause, "instr": instr, "real_status": st["post"]["status"]},
-                  f"case {sid} step {k} (sub {st['sub']}, pc {prev_pc}: {prog[prev_pc] if 0 <= prev_pc < len(prog) else None}): "
-                  f"spec and real state differ in {clause}; real post-state {json.dumps(st['post'])[:400]} {st.get('exc', '')}",
-                  {"case": {k2: t[k2] for k2 in ("id", "umsize", "meas", "progs", "regset", "addrs")}, "step": k})
-        missing = set(by_id) - set(res.ok_ids) - {v[2] for v in res.verdicts}
-        if missing:
-            raise C.MachineryError(f"MachineTrace gave no verdict for {len(missing)} cases, e.g. {sorted(missing)[:5]}")
+        distinct = generated = ntraces = nsteps = 0
+        probes, sample, cmd = [], [], ""
+        for b0 in range(0, len(all_cases), BATCH):
+            cases = all_cases[b0:b0 + BATCH]
+            chunks = [cases[i::n] for i in range(n)]
+            with ProcessPoolExecutor(max_workers=n) as pool:
+                done = list(pool.map(_run_chunk, chunks))
+            traces = [t for ch in done for t in ch]
+            traces.sort(key=lambda t: t["id"])
+            res = C.run_tlc_sharded("MachineTrace", traces, tmp, shards=n)
+            by_id = {t["id"]: t for t in traces}
+            for sid in res.ok_ids:
+                ok += 1
+                t = by_id[sid]
+                if sum(1 for s in t["steps"] if s["kind"] == "exec") >= 3:
+                    nontriv.add(json.dumps(t["progs"], sort_keys=True))
+            for v in res.verdicts:
+                clause, sid, k = v[1], v[2], v[3]
+                t = by_id[sid]
+                if clause == "unspecified":
+                    unspec += 1
+                    continue
+                st = t["steps"][k - 1]
+                prog = t["progs"][st["sub"] - 1]
+                # the instruction that was being executed: pc of the previous step
+                prev_pc = t["steps"][k - 2]["post"]["pc"] if k >= 2 and t["steps"][k - 2]["sub"] == st["sub"] and t["steps"][k - 2]["kind"] != "start" else 0
+                if t["steps"][k - 2]["kind"] == "start" if k >= 2 else True:
+                    prev_pc = 0
+                instr = prog[prev_pc]["mn"] if 0 <= prev_pc < len(prog) else "(end)"
+                V.add("step-leaves-specification", {"component": clause, "instr": instr, "real_status": st["post"]["status"]},
+                      f"case {sid} step {k} (sub {st['sub']}, pc {prev_pc}: {prog[prev_pc] if 0 <= prev_pc < len(prog) else None}): "
+                      f"spec and real state differ in {clause}; real post-state {json.dumps(st['post'])[:400]} {st.get('exc', '')}",
+                      {"case": {k2: t[k2] for k2 in ("id", "umsize", "meas", "progs", "regset", "addrs")}, "step": k})
+            missing = set(by_id) - set(res.ok_ids) - {v[2] for v in res.verdicts}
+            if missing:
+                raise C.MachineryError(f"MachineTrace gave no verdict for {len(missing)} cases, e.g. {sorted(missing)[:5]}")
+            distinct += res.distinct
+            generated += res.generated
+            ntraces += len(traces)
+            nsteps += sum(len(t["steps"]) for t in traces)
+            cmd = res.cmd
+            if not probes:
+                probes = [json.loads(json.dumps(next(t for t in traces if len(t["steps"]) > 6 and t["id"] in res.ok_ids))),
+                          json.loads(json.dumps(next(t for t in traces if len(t["steps"]) > 8 and t["id"] in res.ok_ids)))]
+            sample += [{k2: t[k2] for k2 in ("id", "progs")} | {"steps": len(t["steps"])} for t in (traces[0], traces[len(traces) // 2])]
+            del traces, by_id, done, res
         # binding self-test: corrupt one logged register value / skip one step
-        probe = json.loads(json.dumps(next(t for t in traces if len(t["steps"]) > 6 and t["id"] in res.ok_ids)))
+        probe, probe2 = probes
         probe["id"] = 1
         probe["steps"][4]["post"]["regs"][0] = [1, 424242]
-        probe2 = json.loads(json.dumps(next(t for t in traces if len(t["steps"]) > 8 and t["id"] in res.ok_ids)))
         probe2["id"] = 2
         del probe2["steps"][3]
         r3 = C.run_tlc_sharded("MachineTrace", [probe, probe2], tmp, shards=1, tag="self")
         if len(r3.verdicts) != 2:
             raise C.MachineryError(f"binding self-test: corrupted traces accepted ({r3.verdicts})")
-        sample = [{k2: t[k2] for k2 in ("id", "progs")} | {"steps": len(t["steps"])} for t in (traces[0], traces[len(traces) // 2], traces[-1])]
+        sample = sample[:3]
         cov = {
-            "states": res.distinct + mc["mc_states"], "transitions": res.generated + mc["mc_transitions"],
-            "traces_validated_against_impl": len(traces) + mc["mc_runs_replayed"], "evaluations": len(traces) + mc["mc_runs_replayed"],
+            "states": distinct + mc["mc_states"], "transitions": generated + mc["mc_transitions"],
+            "traces_validated_against_impl": ntraces + mc["mc_runs_replayed"], "evaluations": ntraces + mc["mc_runs_replayed"],
             "spec_to_code": mc,
             "distinct_nontrivial": len(nontriv),
             "rule": "case = application + 1..2 subroutines executed by the real executor one instruction at a time with the projected state logged after each; non-trivial = accepted end to end and >= 3 executed instructions; distinct by program text",
             "samples": sample,
             "accepted": ok, "ended_in_unspecified_situation": unspec,
-            "total_steps_validated": sum(len(t["steps"]) for t in traces),
+            "total_steps_validated": nsteps,
             "selftest": "corrupted register value and skipped step both rejected by MachineTrace",
-            "exhaustive": False, "checker_cmd": res.cmd,
+            "exhaustive": False, "checker_cmd": cmd,
         }
         return V.finish("model_checking", cov, ASSUME)
     finally:
